@@ -198,12 +198,16 @@ class Interp:
             self_name = names[0]
         return Frame(fn, fn.module, env, {}, cls_, depth, self_name)
 
-    def _join_returns(self, frame: Frame) -> T:
+    def _join_returns(self, frame: Frame, base_live: T = TRUE) -> T:
+        """value of the call: the returns joined by their conditions taken
+        relative to the condition under which the function was entered"""
         if not frame.returns:
             return NONE
+        base = set(self._conj(base_live))
         val = frame.returns[-1][0]
         for v, live in reversed(frame.returns[:-1]):
-            val = tm.ite(live, v, val)
+            rel = tm.mk_and(*[c for c in self._conj(live) if c not in base])
+            val = tm.ite(rel, v, val)
         return val
 
     # =============================================================== events
@@ -628,6 +632,15 @@ class Interp:
                 if tm.is_const(live, False):
                     break
                 self.assign(s.target, x, frame, live, s)
+                live = self.exec_block(s.body, frame, live)
+            return live
+        if is_range_literal(itu) and not s.orelse and not any(
+                isinstance(n, (ast.Break, ast.Continue))
+                for st in s.body for n in ast.walk(st)):
+            for k in range_values(itu):
+                if tm.is_const(live, False):
+                    break
+                self.assign(s.target, const(k), frame, live, s)
                 live = self.exec_block(s.body, frame, live)
             return live
         lid = self.new_loop(s)
@@ -1552,7 +1565,7 @@ class Interp:
             self.exec_block(target.node.body, newf, live)
         finally:
             self.stack.pop()
-        return self._join_returns(newf)
+        return self._join_returns(newf, live)
 
     def inline_closure(self, key, cnode, cframe: Frame, args, kwargs,
                        frame: Frame, live: T) -> T:
@@ -1581,7 +1594,22 @@ class Interp:
                 self.exec_block(cnode.body, newf, live)
         finally:
             self.stack.pop()
-        return self._join_returns(newf)
+        return self._join_returns(newf, live)
+
+
+def is_range_literal(t: T) -> bool:
+    if tm.callee_name(t) != "builtins.range" or t.args[2]:
+        return False
+    a = t.args[1]
+    if not (1 <= len(a) <= 3) or not all(
+            tm.is_const(x) and isinstance(x.args[1], int) and
+            not isinstance(x.args[1], bool) for x in a):
+        return False
+    return 0 < len(range_values(t)) <= 8
+
+
+def range_values(t: T):
+    return list(range(*[x.args[1] for x in t.args[1]]))
 
 
 COMMON_METHOD_NAMES = {
